@@ -79,9 +79,10 @@ class Lst(object):
 
 
 class IntSet(object):
-    """a non-empty collection of integers given by the set of linear forms its elements take"""
-    def __init__(self, forms):
+    """a non-empty collection of integers given by the set of linear forms its elements take (count: how many, when known)"""
+    def __init__(self, forms, count=None):
         self.forms = forms
+        self.count = count
 
 
 def _eq(a, b, case):
@@ -191,7 +192,7 @@ class Interp(object):
             if all(isinstance(x, Lin) for x in elts) and elts:
                 return IntSet(elts)
             return Lst(Lin(0, 0, len(elts)), None)       # a flat list of scalars
-        if isinstance(e, ast.ListComp) and len(e.generators) == 1 and not e.generators[0].ifs:
+        if isinstance(e, (ast.ListComp, ast.GeneratorExp)) and len(e.generators) == 1 and not e.generators[0].ifs:
             g = e.generators[0]
             it = self.ev(g.iter)
             saved = dict(self.env)
@@ -216,7 +217,7 @@ class Interp(object):
             if isinstance(elt, Lin):
                 if sign(count, self.case) in (0, None):
                     self.bad(e)
-                return IntSet([elt])
+                return IntSet([elt], count)
             if isinstance(elt, Lst):
                 return Lst(count, [elt.length] if sign(count, self.case) != 0 else [])
             self.bad(e)
@@ -277,6 +278,16 @@ class Interp(object):
             t = self.test(s.test)
             self.run(s.body if t else s.orelse)
             return
+        if isinstance(s, ast.For) and not s.orelse and cm.is_call_to(s.iter, 'zip', 2) and isinstance(s.target, ast.Tuple) \
+                and len(s.target.elts) == 2 and all(isinstance(t, ast.Name) for t in s.target.elts):
+            a, b = self.ev(s.iter.args[0]), self.ev(s.iter.args[1])
+            if isinstance(a, Lst) and a.rows is not None and len({repr(x) for x in a.rows}) == 1 and isinstance(b, IntSet) \
+                    and len({repr(x) for x in b.forms}) == 1 and getattr(b, 'count', None) is not None and _eq(b.count, a.length, self.case):
+                self.env[s.target.elts[1].id] = b.forms[0]
+                fake = ast.For(target=s.target.elts[0], iter=s.iter.args[0], body=s.body, orelse=[])
+                self.loop(fake, Lst(a.rows[0], None, fresh=a.fresh), a.length)
+                return
+            self.bad(s)
         if isinstance(s, ast.For) and not s.orelse:
             it = self.ev(s.iter)
             if isinstance(it, Lst) and it.rows is not None and isinstance(s.target, ast.Name):
